@@ -108,6 +108,7 @@ fn main() {
         "C09" => ("model_checking", exhaust::seqnr::run(&ctx)),
         "C10" => ("model_checking", props::c10::run(&ctx)),
         "C11" => ("model_checking", exhaust::wire::run(&ctx)),
+        "C12" => ("fault_enumeration", props::sockets::c12(&ctx)),
         "C13" => ("fault_enumeration", props::sockets::c13(&ctx)),
         "C14" => ("model_checking", props::c14::run(&ctx)),
         "C15" => ("model_checking", exhaust::cubic::run(&ctx)),
